@@ -13,7 +13,7 @@
  *   unix_read_blk64, unix_write_blk64                    : enforced in rw.c
  *
  * Configuration macros (per unit, through "defines"):
- *   CFG_BS=n      block size fixed to n, the eight cache buffers are rows of one static array
+ *   CFG_BS=n      block size fixed to n, the eight cache buffers are eight static arrays of exactly n bytes
  *   CFG_BS_SET    block size in {16, 1024}, cache buffers are eight separate heap objects of exactly block_size bytes
  *                 (16 is a configuration bound for tractability: the code is parametric in the block size and only ever
  *                 adds it to cursors / passes it on as a length; 1024 is the smallest real ext2 block size)
@@ -67,11 +67,6 @@ int g_covered;			/* the request covers L* */
 unsigned char g_new;		/* the byte the caller writes at L* */
 int g_t0;			/* data->access_time on entry */
 
-#include "lib/ext2fs/unix_io.c"
-
-static struct struct_io_channel CH;
-static struct unix_private_data DATA;
-
 #define E(i) (data->cache[i])
 #define MATCH(i) (E(i).in_use && E(i).block == g_bstar)
 #define ENTRY_OK(i, L) (!MATCH(i) || (E(i).buf[g_ostar] == (char)(L) && (E(i).dirty || g_disk == (L))))
@@ -84,13 +79,6 @@ static struct unix_private_data DATA;
 #define INUSE_DIRTY(i) (E(i).in_use && E(i).dirty)
 #define INUSE(i) (E(i).in_use)
 #define BUF_TIED(i) (E(i).buf == g_cbuf[i])
-
-static int coherent(struct unix_private_data *data) { return COHERENT; }
-/* coherent w.r.t. an explicitly given 'most recently written' byte */
-static int coherent_l(struct unix_private_data *data, unsigned char l) { return COHERENT_L(l); }
-static int any_dirty(struct unix_private_data *data) { return ANY(INUSE_DIRTY); }
-static int any_inuse(struct unix_private_data *data) { return ANY(INUSE); }
-static int bufs_tied(struct unix_private_data *data) { return ALL(BUF_TIED); }
 
 /*
  * n * bs without a symbolic product for the small n that the cached paths use (SAT back ends do not cope with
@@ -115,6 +103,56 @@ static int bufs_tied(struct unix_private_data *data) { return ALL(BUF_TIED); }
 #define KEEP_OUTSIDE(p, n) (g_keep != 0 && __CPROVER_same_object(g_keep, (p)) && \
 	!(__CPROVER_POINTER_OFFSET(g_keep) >= __CPROVER_POINTER_OFFSET(p) && \
 	  (unsigned long long)(__CPROVER_POINTER_OFFSET(g_keep) - __CPROVER_POINTER_OFFSET(p)) < (unsigned long long)(n)))
+
+/* frames: an entry without its buffer pointer; only the state bits of an entry */
+#define ENTRY_FIELDS(i) E(i).block, E(i).access_time, E(i).dirty, E(i).in_use, E(i).write_err
+#define ENTRY_BITS(i) E(i).dirty, E(i).in_use, E(i).write_err
+#define ALL_ENTRY_FIELDS ENTRY_FIELDS(0), ENTRY_FIELDS(1), ENTRY_FIELDS(2), ENTRY_FIELDS(3), ENTRY_FIELDS(4), ENTRY_FIELDS(5), ENTRY_FIELDS(6), ENTRY_FIELDS(7)
+#define ALL_ENTRY_BITS ENTRY_BITS(0), ENTRY_BITS(1), ENTRY_BITS(2), ENTRY_BITS(3), ENTRY_BITS(4), ENTRY_BITS(5), ENTRY_BITS(6), ENTRY_BITS(7)
+#define ALL_CBUFS __CPROVER_object_whole(g_cbuf[0]), __CPROVER_object_whole(g_cbuf[1]), __CPROVER_object_whole(g_cbuf[2]), \
+	__CPROVER_object_whole(g_cbuf[3]), __CPROVER_object_whole(g_cbuf[4]), __CPROVER_object_whole(g_cbuf[5]), \
+	__CPROVER_object_whole(g_cbuf[6]), __CPROVER_object_whole(g_cbuf[7])
+#define IDX_OK(c) ((c) == &E(0) || (c) == &E(1) || (c) == &E(2) || (c) == &E(3) || (c) == &E(4) || (c) == &E(5) || \
+		   (c) == &E(6) || (c) == &E(7))
+#define NOT_THIS(i) (!(E(i).in_use && E(i).block == block))
+#define UNUSED_OR_OLDER(i, c) (!E(i).in_use || (c)->access_time <= E(i).access_time)
+#define ATIME_OK(data) ((data)->access_time >= 0 && (data)->access_time < 0x7fffff00)
+
+/*
+ * The same vocabulary spelled over the harness objects (DATA, CB0..CB7) instead of through `data->` and the buffer
+ * pointers.  ONLY for the in-place loop invariants: CBMC instruments every pointer dereference inside an invariant with
+ * six safety assertions that each repeat the invariant's prefix, which makes invariants written through pointers
+ * prohibitively large; `data` and the buffer pointers are not assigned by the loops, so both spellings denote the same
+ * locations (the function contracts, which are what callers see, use the pointer spelling).
+ */
+extern struct unix_private_data DATA;
+#ifdef CFG_BS
+static char CB0[CFG_BS], CB1[CFG_BS], CB2[CFG_BS], CB3[CFG_BS], CB4[CFG_BS], CB5[CFG_BS], CB6[CFG_BS], CB7[CFG_BS];
+#define G(i) (DATA.cache[i])
+#define GBYTE(i) (CB##i[g_ostar])
+#define GMATCH(i) (G(i).in_use && G(i).block == g_bstar)
+#define GENTRY_OK(i, L) (!GMATCH(i) || (GBYTE(i) == (char)(L) && (G(i).dirty || g_disk == (L))))
+#define GNMATCH (GMATCH(0) + GMATCH(1) + GMATCH(2) + GMATCH(3) + GMATCH(4) + GMATCH(5) + GMATCH(6) + GMATCH(7))
+#define GCOHERENT_L(L) (GNMATCH == 0 ? g_disk == (L) : (GNMATCH == 1 && GENTRY_OK(0, L) && GENTRY_OK(1, L) && GENTRY_OK(2, L) && \
+	GENTRY_OK(3, L) && GENTRY_OK(4, L) && GENTRY_OK(5, L) && GENTRY_OK(6, L) && GENTRY_OK(7, L)))
+#define GINUSE_DIRTY(i) (G(i).in_use && G(i).dirty)
+#define GENTRY_FIELDS(i) G(i).block, G(i).access_time, G(i).dirty, G(i).in_use, G(i).write_err
+#define GALL_ENTRY_FIELDS GENTRY_FIELDS(0), GENTRY_FIELDS(1), GENTRY_FIELDS(2), GENTRY_FIELDS(3), GENTRY_FIELDS(4), GENTRY_FIELDS(5), GENTRY_FIELDS(6), GENTRY_FIELDS(7)
+#define GALL_CBUFS __CPROVER_object_whole(CB0), __CPROVER_object_whole(CB1), __CPROVER_object_whole(CB2), __CPROVER_object_whole(CB3), \
+	__CPROVER_object_whole(CB4), __CPROVER_object_whole(CB5), __CPROVER_object_whole(CB6), __CPROVER_object_whole(CB7)
+#endif
+/* ---- macros above are plain text: they are defined before the real file so that the named loop-invariant anchors can use them ---- */
+#include "lib/ext2fs/unix_io.c"
+
+static struct struct_io_channel CH;
+struct unix_private_data DATA;
+
+static int coherent(struct unix_private_data *data) { return COHERENT; }
+/* coherent w.r.t. an explicitly given 'most recently written' byte */
+static int coherent_l(struct unix_private_data *data, unsigned char l) { return COHERENT_L(l); }
+static int any_dirty(struct unix_private_data *data) { return ANY(INUSE_DIRTY); }
+static int any_inuse(struct unix_private_data *data) { return ANY(INUSE); }
+static int bufs_tied(struct unix_private_data *data) { return ALL(BUF_TIED); }
 
 #ifndef VERIF_NATIVE
 /*
@@ -146,9 +184,6 @@ static errcode_t raw_write_blk(io_channel channel, struct unix_private_data *dat
 	ENSURES(COVERS(channel, block, count) ?
 		(RET != 0 || g_disk == BUF_AT(channel, block, count, bufv)) : g_disk == OLD(g_disk));
 
-#ifdef CFG_BS
-static char CBUFS[8][CFG_BS];	/* content unconstrained under the verifier: see build_channel */
-#endif
 
 /* the device, read side: a successful read delivers the device byte at L* when the range covers it */
 static errcode_t raw_read_blk(io_channel channel, struct unix_private_data *data,
@@ -161,12 +196,6 @@ static errcode_t raw_read_blk(io_channel channel, struct unix_private_data *data
 	ENSURES(COVERS(channel, block, count) || !KEEP_OUTSIDE(bufv, WR_SIZE(channel, count)) || *g_keep == OLD(*g_keep));
 
 /* ------------------------------------------------------------------ the cache (enforced in cache.c) */
-#define IDX_OK(c) ((c) == &E(0) || (c) == &E(1) || (c) == &E(2) || (c) == &E(3) || (c) == &E(4) || (c) == &E(5) || \
-		   (c) == &E(6) || (c) == &E(7))
-#define NOT_THIS(i) (!(E(i).in_use && E(i).block == block))
-#define UNUSED_OR_OLDER(i, c) (!E(i).in_use || (c)->access_time <= E(i).access_time)
-#define ATIME_OK(data) ((data)->access_time >= 0 && (data)->access_time < 0x7fffff00)
-
 /*
  * hit: the in-use entry labelled `block`; miss: NULL and *eldest = an unused entry if there is one, else the LRU one.
  * Frame: ONLY access times (and *eldest) change - labels, dirty bits, buffers stay, hence coherence is kept for
@@ -187,7 +216,7 @@ static struct unix_cache *find_cached_block(struct unix_private_data *data, unsi
 		E(4).access_time, E(5).access_time, E(6).access_time, E(7).access_time; eldest != 0: *eldest);
 
 /*
- * Re-label `cache` for `block`.  Frame: only that entry (not its buffer, not its buffer pointer), the access clock and
+ * Re-label `cache` for `block`.  Frame: only that entry's label and state (not its buffer, not its buffer pointer), the access clock and
  * the device.  A dirty victim reaches the device under its OWN block number first; on a write error nothing is
  * re-labelled and the victim stays dirty.  Stated without reference to g_logical, so that callers in the middle of an
  * update (unix_write_blk64's loop) can use it.
@@ -197,18 +226,17 @@ static errcode_t reuse_cache(io_channel channel, struct unix_private_data *data,
 			     unsigned long long block)
 	REQUIRES(ATIME_OK(data))
 	REQUIRES(IDX_OK(cache) && ALL(NOT_THIS))
-	ENSURES(cache->buf == OLD(cache->buf))
 	ENSURES(RET != 0 || (cache->in_use && !cache->dirty && cache->block == block))
 	ENSURES(RET == 0 || (cache->in_use && cache->dirty && cache->block == OLD(cache->block) && cache->write_err))
 	ENSURES(VICTIM_AT_LSTAR ? (RET != 0 || g_disk == (unsigned char)cache->buf[g_ostar]) : g_disk == OLD(g_disk))
 	ENSURES(RET == 0 ? g_wfail == OLD(g_wfail) : g_wfail == 1)
 	ENSURES(data->access_time >= OLD(data->access_time) && data->access_time <= OLD(data->access_time) + 1)
-	ASSIGNS(*cache, data->access_time, data->io_stats.bytes_written, g_disk, g_nwrites, g_wfail);
+	ASSIGNS(cache->block, cache->access_time, cache->dirty, cache->in_use, cache->write_err,
+		data->access_time, data->io_stats.bytes_written, g_disk, g_nwrites, g_wfail);
 
 /*
- * flush_cached_blocks.  Frame: the eight entries (labels and buffer pointers stay), the device.
+ * flush_cached_blocks.  Frame: the state bits of the eight entries (labels, buffers and buffer pointers stay), the device.
  */
-#define LABEL_KEPT(i) (E(i).buf == OLD(E(i).buf) && E(i).block == OLD(E(i).block))
 static errcode_t flush_cached_blocks(io_channel channel, struct unix_private_data *data, int flags)
 	REQUIRES(coherent(data) && channel->write_error == 0 && !(data->flags & IO_FLAG_THREADS))
 	ENSURES(coherent(data))
@@ -216,9 +244,7 @@ static errcode_t flush_cached_blocks(io_channel channel, struct unix_private_dat
 	ENSURES(RET != 0 || !(flags & FLUSH_INVALIDATE) || !any_inuse(data))
 	ENSURES(RET == 0 || g_nwrites > 0)
 	ENSURES(RET == 0 ? g_wfail == OLD(g_wfail) : g_wfail == 1)
-	ENSURES(LABEL_KEPT(0) && LABEL_KEPT(1) && LABEL_KEPT(2) && LABEL_KEPT(3) && LABEL_KEPT(4) && LABEL_KEPT(5) &&
-		LABEL_KEPT(6) && LABEL_KEPT(7))
-	ASSIGNS(E(0), E(1), E(2), E(3), E(4), E(5), E(6), E(7), data->io_stats.bytes_written, g_disk, g_nwrites, g_wfail);
+	ASSIGNS(ALL_ENTRY_BITS, data->io_stats.bytes_written, g_disk, g_nwrites, g_wfail);
 
 static void build_channel(void)
 {
@@ -246,12 +272,17 @@ static void build_channel(void)
 	ASSUME(IN.access_time >= 0 && IN.access_time < 0x7ffffe00);	/* assumption: < 2^31 cache accesses per channel (int counter) */
 	g_bstar = IN.bstar; g_ostar = IN.ostar; g_disk = IN.disk; g_logical = IN.logical;
 	g_nwrites = 0; g_nreads = 0; g_choice = 0; g_wfail = 0; g_keep = 0;
-#if defined(CFG_BS) && !defined(VERIF_NATIVE)
-	__CPROVER_havoc_object(CBUFS);
+#if defined(CFG_BS)
+	char *cbs[8] = { CB0, CB1, CB2, CB3, CB4, CB5, CB6, CB7 };
+#if !defined(VERIF_NATIVE)
+	/* content unconstrained under the verifier */
+	__CPROVER_havoc_object(CB0); __CPROVER_havoc_object(CB1); __CPROVER_havoc_object(CB2); __CPROVER_havoc_object(CB3);
+	__CPROVER_havoc_object(CB4); __CPROVER_havoc_object(CB5); __CPROVER_havoc_object(CB6); __CPROVER_havoc_object(CB7);
+#endif
 #endif
 	for (int i = 0; i < CACHE_SIZE; i++) {
 #ifdef CFG_BS
-		DATA.cache[i].buf = CBUFS[i];
+		DATA.cache[i].buf = cbs[i];
 #else
 		DATA.cache[i].buf = malloc(IN.block_size);
 		ASSUME(DATA.cache[i].buf != 0);
